@@ -283,15 +283,17 @@ def main(argv=None):
     nt = sum(len(a["hashes"]) for a in agg.values())
     print("property=%s tier=%s seed=%d evaluations=%d distinct_nontrivial=%d known_matched=%d wall=%.1fs"
           % (pid, args.tier, vseed, tot, nt, known_matched, wall))
-    if errors or floor_errors:
-        for e in errors[:3] + floor_errors:
-            print("HARNESS-ERROR property=%s %s" % (pid, e))
-        return 2
     if violations:
+        for e in errors[:3]:
+            print("HARNESS-ERROR property=%s %s" % (pid, e))
         for sig, path, msg in violations:
             print("  %s: %s" % (sig, msg))
             print("VIOLATION property=%s replay=%s" % (pid, path))
         return 1
+    if errors or floor_errors:
+        for e in errors[:3] + floor_errors:
+            print("HARNESS-ERROR property=%s %s" % (pid, e))
+        return 2
     return 0
 
 
